@@ -631,6 +631,19 @@ fn configs(prop: &str, thorough: bool) -> Vec<(Cfg, Option<usize>)> {
                         c.funds.push((A, Tok::BankNamedLikeCw20(1), 1));
                         c.send_toks.push(Tok::BankNamedLikeCw20(1));
                     }
+                    if *an == "allow[T1:1]" && *dn == "default-0" {
+                        // the same contract with its cw2 record naming 0.13.1 (same layout as today): an upgrade
+                        // from there must keep the allow list, the default and governance (smaller alphabet)
+                        let mut r = c.clone();
+                        r.name = format!("C18/{an}/{dn}/store-stamped-0.13.1");
+                        r.restamp = Some("0.13.1");
+                        r.gov_actors = vec![G, X];
+                        r.allow_limits = vec![None, Some(2)];
+                        r.admin_targets = vec![G2];
+                        r.senders = vec![A];
+                        r.fault_bound = 0;
+                        out.push((r, None));
+                    }
                     out.push((c, None));
                 }
             }
